@@ -18,6 +18,8 @@ pub fn install() {
                 let f = l.file();
                 let f = f.rsplit_once("/registry/src/").map(|(_, r)| r.split_once('/').map(|x| x.1).unwrap_or(r)).unwrap_or(f);
                 let f = f.strip_prefix("/repo/").unwrap_or(f);
+                // scratch copies used by seeded/matrix.py live under /tmp/mx*/repo/
+                let f = f.split_once("/repo/").map(|x| x.1).unwrap_or(f);
                 format!("{f}:{}", l.line())
             })
             .unwrap_or_else(|| "?".into());
